@@ -106,11 +106,32 @@ pub fn run(ctx: &Ctx) {
     let cap = ctx.opt_u64("cap", if ctx.thorough { 4 << 20 } else { 1 << 20 }) as usize;
     // exec'd reader (OS transports only)
     let mut reader = None;
+    let mut forked_reader: Option<i32> = None;
     if is_os() {
         let (server, name) = must("server", IpcOneShotServer::<(IpcSender<ShmMsg>, IpcReceiver<Report>)>::new());
-        let child = std::process::Command::new(self_exe()).args(["role", "c05-reader", &name]).spawn().expect("spawn reader");
-        let (_b, (tx, rx)) = server.accept().expect("accept reader");
-        reader = Some((tx, rx, child));
+        if ctx.batch % 2 == 1 {
+            // fork()ed reader (no exec): done while this driver is single-threaded. It inherits two
+            // regions created before the fork and must read them through the inherited mappings.
+            let pre: Vec<IpcSharedMemory> = vec![IpcSharedMemory::from_bytes(&body(0xf0f0 + ctx.batch, 4097)), IpcSharedMemory::from_byte(0x3c, 12289)];
+            let pid = unsafe { libc::fork() };
+            if pid == 0 {
+                let ok = &pre[0][..] == &body(0xf0f0 + ctx.batch, 4097)[..] && pre[1].len() == 12289 && pre[1].iter().all(|b| *b == 0x3c);
+                if !ok {
+                    unsafe { libc::_exit(41) };
+                }
+                let rc = role_reader(&[name]);
+                unsafe { libc::_exit(rc) };
+            }
+            let (_b, (tx, rx)) = server.accept().expect("accept forked reader");
+            // a placeholder Child is not available for a raw fork: keep the pid
+            forked_reader = Some(pid);
+            reader = Some((tx, rx, None));
+            drop(pre);
+        } else {
+            let child = std::process::Command::new(self_exe()).args(["role", "c05-reader", &name]).spawn().expect("spawn reader");
+            let (_b, (tx, rx)) = server.accept().expect("accept reader");
+            reader = Some((tx, rx, Some(child)));
+        }
     }
     let mut expected_final: Vec<(u64, u64, u64)> = Vec::new();
     for i in 0..n {
@@ -170,7 +191,7 @@ pub fn run(ctx: &Ctx) {
         let has_tail = msg.tail.is_some();
         let path;
         if to_child {
-            path = "exec-child";
+            path = if forked_reader.is_some() { "forked-child" } else { "exec-child" };
             let (tx, rx, _c) = reader.as_ref().unwrap();
             if let Err(e) = tx.send(msg) {
                 problems.push(("send-failed".into(), json!({"error": e.to_string()})));
@@ -263,7 +284,7 @@ pub fn run(ctx: &Ctx) {
         }
     }
     // final report of the reader after its carrier disconnected
-    if let Some((tx, rx, mut child)) = reader {
+    if let Some((tx, rx, child)) = reader {
         drop(tx);
         match rx.recv() {
             Ok(fin) => {
@@ -285,6 +306,19 @@ pub fn run(ctx: &Ctx) {
                 }
             },
         }
-        let _ = child.wait();
+        if let Some(mut c) = child {
+            let _ = c.wait();
+        }
+        if let Some(pid) = forked_reader {
+            let mut st = 0;
+            unsafe { libc::waitpid(pid, &mut st, 0) };
+            let code = if libc::WIFEXITED(st) { libc::WEXITSTATUS(st) } else { -1 };
+            rep.stat("forked_reader_batches", 1);
+            if code == 41 {
+                rep.violation("C05:forked-child-reads-inherited-region-differently", json!({"exit": code}), ctx.replay(0));
+            } else if code != 0 {
+                rep.violation("C05:forked-reader-failed", json!({"exit": code, "signaled": libc::WIFSIGNALED(st)}), ctx.replay(0));
+            }
+        }
     }
 }
